@@ -839,4 +839,18 @@ Section Proofs.
         * intros [Hnd H]. inversion Hnd; subst. split; [assumption|].
           intros x Hin [<-|Hs]; [contradiction|]. apply (H x); auto.
   Qed.
+
+  Lemma add_handlers_nodup (hs : list handler) :
+    cmd_add_handlers gen_name zero hs = None <-> NoDup (map hname hs).
+  Proof.
+    unfold cmd_add_handlers. rewrite first_dup_none. split; [now intros [H _]|].
+    intros H. split; [assumption|]. intros n _ [].
+  Qed.
+
+  Lemma proc_fn_ctx_ok cfg msg d :
+    ctx_ok msg (snd (fst (proc_fn cfg msg d (init CtorNew)))) = true.
+  Proof.
+    pose proof (proc_fn_spec cfg msg d (init CtorNew)) as H. cbv zeta in H.
+    destruct (proc_fn cfg msg d (init CtorNew)) as [[m1 e] out]. apply H.
+  Qed.
 End Proofs.
